@@ -145,9 +145,10 @@ Section Transforms.
     let newfirst := gemv (- n1) nonl tra n1 first in
     let newzeroth := j - dot tra (vadd newfirst first) in
     SGeneralQuadric abc def (vscale n2 newfirst) newzeroth.
-  (** [fixed = false] is the code as it stands: the constant term subtracts
-      2 * first[i] * origin[i]; f(x - t) requires first[i] * origin[i]
-      ([fixed = true], see translate_sq_refuted / finding in NOTES.md) *)
+  (** [fixed = true] is the code as it stands since commit 9730bb5: the constant
+      term subtracts first[i] * origin[i], as f(x - t) requires; [fixed = false]
+      is the translator before the repair (2 * first[i] * origin[i]; see
+      translate_sq_refuted / NOTES.md) *)
   Definition translate_sq_gen (fixed : bool) (tra abc def : vec) (g : T) : surface T :=
     let step (i : axis) (acc : vec * T) :=
       let '(first, zeroth) := acc in
@@ -156,7 +157,7 @@ Section Transforms.
                  - (if fixed then vget i def * vget i tra else n2 * vget i def * vget i tra))) in
     let '(first, zeroth) := step AZ (step AY (step AX (def, g))) in
     SSimpleQuadric abc first zeroth.
-  Definition translate_sq := translate_sq_gen false.
+  Definition translate_sq := translate_sq_gen true.
   Definition translate_surface_gen (fixed : bool) (tra : vec) (s : surface T) : surface T :=
     match s with
     | SPlaneAligned t p => SPlaneAligned t (p + vget t tra)
@@ -174,7 +175,7 @@ Section Transforms.
     | SGeneralQuadric abc def ghi j => translate_gq tra abc def ghi j
     end.
   (** the translator as coded today *)
-  Definition translate_surface := translate_surface_gen false.
+  Definition translate_surface := translate_surface_gen true.
 
   (** ** SurfaceTransformer *)
   (** 4x4 matrices as functions of indices 0..3 *)
